@@ -27,7 +27,9 @@ def paths_in(line):
     return re.findall(r'"((?:[^"\\]|\\.)*)"', line)
 
 
-def audit(log_path, allowed_write_prefixes, tcp, label):
+def audit(log_path, allowed_write_prefixes, tcp, label, phases=None):
+    """phases: optional list of (t_from, allow-list) — the allow-list in force from that wall-clock
+    time on (strace -ttt timestamps); the configuration the client sent last decides."""
     """Returns (findings, stats)."""
     findings = []
     stats = {"syscalls": 0, "network": 0, "write_opens": 0, "mutations": 0, "kinds": set(), "written_paths": set()}
@@ -39,10 +41,14 @@ def audit(log_path, allowed_write_prefixes, tcp, label):
     conn_fd = None
     inet_sockets = 0
     for raw in open(log_path, errors="replace"):
-        m = re.match(r"^(\d+)\s+(\w+)\((.*)$", raw)
+        m = re.match(r"^(\d+)\s+(?:(\d+\.\d+)\s+)?(\w+)\((.*)$", raw)
         if not m:
             continue
-        pid, name, rest = m.group(1), m.group(2), m.group(3)
+        pid, ts, name, rest = m.group(1), m.group(2), m.group(3), m.group(4)
+        if phases and ts:
+            cur = [a for (t0, a) in phases if float(ts) >= t0]
+            if cur:
+                allowed_write_prefixes = cur[-1]
         line = raw.strip()
         stats["syscalls"] += 1
         stats["kinds"].add(name)
@@ -122,7 +128,8 @@ def lsp_session(wd, tcp, default_paths, rng, label):
     shutil.rmtree(wd, ignore_errors=True)
     os.makedirs(wd)
     log = os.path.join(wd, "strace.log")
-    s = Server(wd, tcp=tcp, default_paths=default_paths, strace=["strace", "-f", "-o", log, "-e", TRACE])
+    s = Server(wd, tcp=tcp, default_paths=default_paths, strace=["strace", "-f", "-ttt", "-o", log, "-e", TRACE])
+    phases = []
     files = os.path.join(wd, "files")
     os.makedirs(files)
     try:
@@ -177,6 +184,20 @@ def lsp_session(wd, tcp, default_paths, rng, label):
         s.notify("workspace/didChangeConfiguration", {"settings": s.settings})
         s.pump(lambda: False, 1.0) if False else None
         time.sleep(0.3)
+        if not default_paths:
+            # the client moves the dictionaries: from now on only the new locations are configured
+            keep = uri_for(b)
+            newd = os.path.join(wd, "moved")
+            s.settings["harper-ls"].update({"userDictPath": os.path.join(newd, "user.txt"), "fileDictPath": os.path.join(newd, "filedicts"), "statsPath": os.path.join(newd, "stats.txt")})
+            s.notify("workspace/didChangeConfiguration", {"settings": s.settings})
+            time.sleep(0.5)
+            phases.append((time.time(), [os.path.join(newd, "user.txt"), os.path.join(newd, "filedicts"), os.path.join(newd, "stats.txt")]))
+            time.sleep(0.2)
+            s.command("HarperAddToFileDict", ["wrold", keep])
+            s.command("HarperAddToUserDict", ["teh", keep])
+            late = os.path.join(files, "late.md")
+            s.open(uri_for(late), "A late document with a qzxvb.", "markdown")
+            s.command("HarperAddToFileDict", ["qzxvb", uri_for(late)])
         s.close(uri_for(b))
         s.notify("workspace/didChangeWatchedFiles", {"changes": [{"uri": uri_for(a), "type": 3}]})
         time.sleep(0.2)
@@ -186,7 +207,34 @@ def lsp_session(wd, tcp, default_paths, rng, label):
         allowed = [os.path.join(wd, "cfg", "harper-ls"), os.path.join(wd, "data", "harper-ls")]
     else:
         allowed = [s.user_dict, s.file_dict_dir, s.stats_path]
-    return log, allowed
+    return log, allowed, phases
+
+
+def port_taken_session(wd):
+    """TCP mode while 127.0.0.1:4000 is occupied: the server must not listen anywhere else."""
+    import socket
+    shutil.rmtree(wd, ignore_errors=True)
+    os.makedirs(wd)
+    log = os.path.join(wd, "strace.log")
+    blocker = socket.socket(socket.AF_INET, socket.SOCK_STREAM)
+    blocker.setsockopt(socket.SOL_SOCKET, socket.SO_REUSEADDR, 1)
+    try:
+        blocker.bind(("127.0.0.1", 4000))
+        blocker.listen(1)
+    except OSError:
+        blocker.close()
+        return None
+    try:
+        env = dict(os.environ, HOME=wd, XDG_CONFIG_HOME=wd, XDG_DATA_HOME=wd)
+        p = subprocess.Popen(["strace", "-f", "-o", log, "-e", TRACE, client.LS], stdin=subprocess.PIPE, stdout=subprocess.PIPE, stderr=subprocess.DEVNULL, env=env, cwd=wd)
+        try:
+            p.wait(timeout=4)
+        except subprocess.TimeoutExpired:
+            p.kill()
+            p.wait()
+    finally:
+        blocker.close()
+    return log
 
 
 def library_session(wd, label):
@@ -219,11 +267,11 @@ def run(tier, seed, scale, verif):
     for label, tcp, dflt in sessions:
         wd = os.path.join(base, re.sub(r"[^a-z0-9]", "_", label))
         try:
-            log, allowed = lsp_session(wd, tcp, dflt, rng, label)
+            log, allowed, phases = lsp_session(wd, tcp, dflt, rng, label)
         except (client.Timeout, client.ServerDied) as e:
             inconclusive.append("%s: %s" % (label, e))
             continue
-        f, st = audit(log, allowed, tcp, label)
+        f, st = audit(log, allowed, tcp, label, phases)
         findings += f
         for k in totals:
             totals[k] += st[k]
@@ -231,6 +279,16 @@ def run(tier, seed, scale, verif):
         written |= {p.replace(wd, "<session>") for p in st["written_paths"]}
         samples.append({"session": label, "syscalls_inspected": st["syscalls"], "network_class": st["network"], "write_opens": st["write_opens"], "other_mutations": st["mutations"],
                         "paths_written": sorted(p.replace(wd, "<session>") for p in st["written_paths"])[:12]})
+    ptlog = port_taken_session(os.path.join(base, "port_taken"))
+    if ptlog:
+        f, st = audit(ptlog, [], True, "tcp/port-4000-already-taken")
+        # with the port taken the only acceptable network activity is the failed bind itself
+        f = [x for x in f if not (x["sig"] == "network.bind" and "EADDRINUSE" in x["witness"]["syscall"])]
+        findings += f
+        for k in totals:
+            totals[k] += st[k]
+        kinds |= st["kinds"]
+        samples.append({"session": "tcp/port-4000-already-taken", "syscalls_inspected": st["syscalls"], "network_class": st["network"]})
     try:
         log, allowed = library_session(os.path.join(base, "library"), "library+js-api")
         f, st = audit(log, allowed, False, "library+js-api")
